@@ -42,6 +42,20 @@ namespace Go
 /-- `sort.Strings` on bidder addresses (accounts are numbered in bech32-string order) -/
 def sortAcc (l : List Acc) : List Acc := l.mergeSort (fun a b => decide (a ≤ b))
 
+/-- `xs[i] = v` on a slice (an index out of range panics in Go: here it changes nothing) -/
+def listSet {α : Type} (l : List α) (i : Int) (v : α) : List α := if 0 ≤ i then l.set i.toNat v else l
+
+/-- insertion of `x` before the first element it is `less` than -/
+def insertBy {α : Type} (less : α → α → Bool) (x : α) : List α → List α
+  | [] => [x]
+  | y :: ys => if less x y then x :: y :: ys else y :: insertBy less x ys
+
+/-- `sort.Slice(xs, less)` for a comparator that reads only the two elements: an insertion sort.
+    For a `less` that is a strict weak order EVERY correct sorting algorithm returns a list sorted
+    by it (and for a strict total order on distinct elements, this very list); for a comparator that
+    is not, the result depends on Go's algorithm and the call has to stay an oracle (`SortBids`). -/
+def sortSlice {α : Type} (less : α → α → Bool) (l : List α) : List α := l.foldr (insertBy less) []
+
 /-- the loop of Go's `sort.Search`: `i, j := 0, n; for i < j { h := int(uint(i+j) >> 1); if !f(h) { i = h + 1 } else { j = h } }`,
     with the state the closure `f` carries threaded through; `fuel` bounds the iterations (`n` is enough) -/
 def sortSearchLoop {σ : Type} (f : Int → σ → Bool × σ) : Nat → Int → Int → σ → Int × σ
